@@ -135,6 +135,20 @@ def _formula_part(g, res):
                 res["nontrivial"] += 1
                 if not (min(va, vb) * (1 - 4 * EPS) <= v <= max(va, vb) * (1 + 4 * EPS)):
                     add("bounds", name, "face axis %d %s between cell values %g and %g is %.15g" % (ax, list(idx), va, vb, v))
+    # (v) zeros of either sign in the two adjacent cells (-0.0 comes out of ordinary arithmetic: mask*field, -c): every mean is
+    #     finite; harmonic and geometric give 0; arithmetic / linear give the weighted mean of the other value
+    for (ax, idx) in g.faces:
+        lo, hi = _adj(g, ax, idx)
+        for za, zb in ((0.0, -0.0), (-0.0, 0.0), (-0.0, -0.0), (-0.0, 2.0), (2.0, -0.0)):
+            fld = base.copy()
+            fld[lo], fld[hi] = za, zb
+            for name in MEANS:
+                v = g.face_arrays(getattr(pf, name)(g.cell(fld)))[ax][idx]
+                res["evals"] += 1
+                res["nontrivial"] += 1
+                want = ref_mean(name, abs(za), abs(zb), sz[ax][idx[ax]], sz[ax][idx[ax] + 1])
+                if not (np.isfinite(v) and _close(abs(v), want)):
+                    add("signed_zero", name, "face axis %d %s between cell values %r and %r is %r, expected %r" % (ax, list(idx), za, zb, float(v), want))
     # (iv) ordering harmonic <= geometric <= arithmetic, same weighting
     for tag in (73, 75):
         fld = U.generic_array(g.fshape, tag=tag)
